@@ -669,13 +669,20 @@ def _find_dependencies(component, output_owners, target_time):
     for _, inp in component.inputs.items():
         local_time = target_time
         delayed = False
+        buffered = False
         while isinstance(inp, IInput):
             inp = inp.source
+            if buffered:
+                # a push-based adapter further downstream needs to be notified
+                # up to local_time; nothing upstream of it can relax that
+                continue
             if isinstance(inp, NoDependencyAdapter):
                 break
             if isinstance(inp, ITimeDelayAdapter):
                 local_time = inp.with_delay(local_time)
                 delayed = True
+            if isinstance(inp, IAdapter) and inp.needs_push:
+                buffered = True
 
         if not isinstance(inp, NoDependencyAdapter) and not inp.is_static:
             comp = output_owners[inp]
